@@ -1319,6 +1319,21 @@ def stdlib_equivalents(repo, ref):
                     blk[i] = new
                     _invalidate(owner)
                     done.setdefault(q, []).append("pop(k, None)")
+                elif isinstance(st, ast.Try) and not st.finalbody and len(st.handlers) == 1 and ast.unparse(st.handlers[0].type or ast.Name(id="")) == "KeyError" \
+                        and st.handlers[0].name is None and len(st.handlers[0].body) == 1 and isinstance(st.handlers[0].body[0], ast.Pass) and len(st.body) == 1 \
+                        and ((isinstance(st.body[0], ast.Assign) and len(st.body[0].targets) == 1 and isinstance(st.body[0].targets[0], ast.Name) and isinstance(st.body[0].value, ast.Subscript)
+                              and isinstance(st.body[0].value.slice, ast.Name) and _chain(st.body[0].value.value) is not None)
+                             or (isinstance(st.body[0], ast.Delete) and len(st.body[0].targets) == 1 and isinstance(st.body[0].targets[0], ast.Subscript) and not st.orelse
+                                 and isinstance(st.body[0].targets[0].slice, ast.Name) and _chain(st.body[0].targets[0].value) is not None)):
+                    # try: x = D[k] / del D[k]   except KeyError: pass   else: B     is     if k in D: x = D[k] / del D[k]; B
+                    sub = st.body[0].value if isinstance(st.body[0], ast.Assign) else st.body[0].targets[0]
+                    new = _fresh_stmt("if %s in %s:\n    pass" % (sub.slice.id, ast.unparse(sub.value)), st, owner)[0]
+                    new.body = [st.body[0]] + list(st.orelse)
+                    for b_ in new.body:
+                        b_._parent = new
+                    blk[i] = new
+                    _invalidate(owner)
+                    done.setdefault(q, []).append("try KeyError")
                 elif isinstance(st, ast.Expr) and isinstance(st.value, ast.Call) and isinstance(st.value.func, ast.Attribute) and st.value.func.attr == "pop" \
                         and len(st.value.args) == 1 and not st.value.keywords and not isinstance(st.value.args[0], ast.Constant) \
                         and _chain(st.value.args[0]) is not None and _chain(st.value.func.value) is not None:
@@ -2940,6 +2955,21 @@ def inline_new_helpers(repo, full_ref):
             # a decision tree of returns: as an expression only where the call is not a whole statement (there the statements
             # themselves are put in place, below)
             sites = [x for x in all_sites if x[3] in (None, "nested")]
+        # a parameter used inside a lambda / generator expression of the helper is bound when the helper is *called*; put in place, the
+        # argument expression would be evaluated when the lambda runs.  A helper that is `return lambda <args>: E` keeps its meaning when each
+        # captured parameter becomes a default argument of the lambda (evaluated where the call stood); anything else is not inlined
+        deferred = [x for x in ast.walk(h.node) if isinstance(x, (ast.Lambda, ast.GeneratorExp))]
+        captured = {y.id for x in deferred for y in ast.walk(x) if isinstance(y, ast.Name) and y.id in params and y.id != recv_param}
+        if captured:
+            r0 = hbody[0] if len(hbody) == 1 and isinstance(hbody[0], ast.Return) else None
+            lam = r0.value if r0 is not None and isinstance(r0.value, ast.Lambda) else None
+            if lam is None or len(deferred) != 1 or lam.args.vararg or lam.args.kwarg or lam.args.kwonlyargs or (captured & {a_.arg for a_ in lam.args.args}):
+                continue
+            for p_ in sorted(captured):
+                lam.args.args.append(ast.arg(arg=p_ + "_", annotation=None))
+                lam.args.defaults.append(ast.Name(id=p_, ctx=ast.Load()))
+            lam.body = _SubstNames({p_: p_ + "_" for p_ in captured}).visit(lam.body)
+            ast.fix_missing_locations(lam)
         if sites and len(hbody) == 1 and isinstance(hbody[0], ast.Return) and hbody[0].value is not None and not stored_params and vaname is None:
             def simple_arg(e):
                 return isinstance(e, (ast.Name, ast.Constant)) or (isinstance(e, ast.Attribute) and simple_arg(e.value)) \
